@@ -160,8 +160,11 @@ def run_schedule(case):
             threads.append(th)
             th.start()
         sched.wait_all_parked(len(threads))
-        for tid in range(len(threads)):
-            sched.grant(tid)          # from 'acquire0' to the real first 'acquire'
+        if not case.get('late_start'):
+            for tid in range(len(threads)):
+                sched.grant(tid)          # from 'acquire0' to the real first 'acquire'
+        # with late_start a call begins (computes its file path, ...) at a scheduled moment, possibly while another
+        # call is in the middle of its write: the action 'acquire0' is then part of the trace (a no-op of the model)
         import random
         rng = random.Random(case['seed'])
         script = list(case.get('script', []))
@@ -196,6 +199,8 @@ def model_schedule(case, trace):
         per.setdefault(tid, []).append(i)
     seen_acq = {}
     for i, (tid, action) in enumerate(trace):
+        if action == 'acquire0':
+            continue
         sched.append(tid)
         if action == 'acquire' and not seen_acq.get(tid):
             seen_acq[tid] = True
@@ -237,6 +242,11 @@ Definition conc_model (c : fstate * list (kind * nat) * list nat) : list (option
             dict(init='full', callers=[dict(kind='goc', force=False), dict(kind='goc', force=True)], seed=1, script=window),
             dict(init='full', callers=[dict(kind='get'), dict(kind='goc', force=True)], seed=1, script=window),
             dict(init='absent', callers=[dict(kind='goc', force=False), dict(kind='goc', force=False)], seed=2),
+            # the second call begins while the first one has written its entry aside and not yet published it
+            dict(init='absent', callers=[dict(kind='goc', force=False), dict(kind='goc', force=False)], seed=3, late_start=True,
+                 script=[0, 0, 0, 0, 0, 0, 0, 1, 0, 0, 1, 1, 1, 1]),
+            dict(init='full', callers=[dict(kind='goc', force=True), dict(kind='goc', force=True)], seed=3, late_start=True,
+                 script=[0, 0, 0, 0, 0, 0, 0, 1, 0, 0, 1, 1, 1, 1, 1, 1, 1]),
         ]
 
     def gen(self, rng, tier):
@@ -247,7 +257,8 @@ Definition conc_model (c : fstate * list (kind * nat) * list nat) : list (option
             for _ in range(n):
                 r = rng.random()
                 callers.append(dict(kind='get') if r < 0.3 else dict(kind='goc', force=rng.random() < 0.35))
-            out.append(dict(init=rng.choice(['absent', 'full']), callers=callers, seed=rng.randrange(10 ** 9)))
+            out.append(dict(init=rng.choice(['absent', 'full']), callers=callers, seed=rng.randrange(10 ** 9),
+                            late_start=rng.random() < 0.5))
         return out
 
     def run_impl(self, case):
